@@ -21,7 +21,25 @@ Part D (real input)    DASSH_Input -> Orificing.__init__ -> real group_by_power
                        run_parametric on its recycle branch (tables written
                        by the harness) -> distribute, for two assembly types
                        on a 7-position core: interleaved / block layouts x
-                       listing order x (lo, hi) power pairs x pressure limit.
+                       listing order x (lo, hi) power pairs x pressure limit
+                       x power_scaling_factor {absent, 1.5} x total_power
+                       {absent, 0.8 x CSV total}.  The required total flow is
+                       Q/(cp dT) with Q = exact integral of the profiles the
+                       harness wrote x normalisation x scaling factor; the
+                       group order is judged on those powers too.
+Part E (real input,    same path up to group_by_power with a pin-temperature
+        linear power)  value_to_optimize (peak clad MW / clad ID / fuel temp):
+                       the grouping parameter is the peak linear power that
+                       the real _get_power takes from AssemblyPower.
+                       calculate_avg_peak_linear_power.  User power CSVs with
+                       quadratic axial shapes peaked below / at / above the
+                       cell centre or flat, different for the "hot" and the
+                       other assemblies x amplitude pairs x requested groups
+                       (x one / two axial power cells in thorough).  The group
+                       order is checked against the harness's own peak of the
+                       pin-average polynomial (end points + stationary point),
+                       with a 1e-6 relative margin below which two parameters
+                       count as tied.
 
 Previous results in parts B and C cover one and two time steps (row blocks
 as _get_dassh_results stacks them); the required total stays Q/(cp dT) of the
@@ -1050,7 +1068,11 @@ def main(run):
                 'one real transition was taken. '
                 'D: real input file path for 7 assemblies of two types: every (lo<hi) value pair x '
                 'layout of the hot assemblies x type pattern (interleaved bab/aba, block) x listing '
-                'order x limit x requested groups; each is a distinct input.')
+                'order x limit x requested groups x (power_scaling_factor, total_power) ; each is a '
+                'distinct input. '
+                'E: real input with a pin-temperature optimisation variable: amplitude pair x axial '
+                'shape of the hot assemblies x different shape of the others x requested groups x '
+                'option name (x layout, axial cells in thorough); each is a distinct input.')
     run.assumptions = [
         'dassh.Material(sodium_se2anl_425).heat_capacity (constant) is the cp of Q/(cp dT)',
         'the parametric sweep table and the sweep that yields previous results are synthetic '
@@ -1058,7 +1080,10 @@ def main(run):
         'with flow); Orificing._get_power is replaced by a stub publishing the generated powers',
         'the flow at the pressure limit is the piecewise-linear look-up in the parametric table '
         '(recomputed in the harness), clamped at the table ends',
-        'SystemExit from log(error) is the accepted "stops with an error" outcome']
+        'SystemExit from log(error) is the accepted "stops with an error" outcome',
+        'parts D/E: the power dassh must work with is the harness evaluation of the CSV it wrote '
+        '(exact polynomial integral x total_power normalisation x power_scaling_factor; peak of the '
+        'pin-average polynomial over zeta in [-1/2, 1/2]), never a number read back from dassh']
     ca = cases_a(run.tier)
     run.check_determinism(run_group, ca[len(ca) // 3])
     ra = run.explore('grouping', ca, run_group, budget_s=120)
